@@ -15,11 +15,11 @@ import (
 )
 
 type PropConfig struct {
-	Load        []string `json:"load"`
-	NotDecided  []string `json:"not_decided"`
-	Assumptions []string `json:"assumptions"`
-	Bounded     []string `json:"bounded"`
-	MinObligations int   `json:"min_obligations"`
+	Load           []string `json:"load"`
+	NotDecided     []string `json:"not_decided"`
+	Assumptions    []string `json:"assumptions"`
+	Bounded        []string `json:"bounded"`
+	MinObligations int      `json:"min_obligations"`
 }
 
 var verifRoot = "/verif"
@@ -85,14 +85,14 @@ func hasProp(ps []string, id string) bool {
 }
 
 type fnReport struct {
-	Name         string   `json:"name"`
-	Instrs       int      `json:"ssa_instructions"`
-	Obligations  int      `json:"obligations"`
-	InSubset     bool     `json:"fully_in_subset"`
-	Reason       string   `json:"outside_subset_reason,omitempty"`
-	Notes        []string `json:"notes,omitempty"`
-	Unknown      []string `json:"unknown_callees,omitempty"`
-	Trusted      bool     `json:"trusted,omitempty"`
+	Name        string   `json:"name"`
+	Instrs      int      `json:"ssa_instructions"`
+	Obligations int      `json:"obligations"`
+	InSubset    bool     `json:"fully_in_subset"`
+	Reason      string   `json:"outside_subset_reason,omitempty"`
+	Notes       []string `json:"notes,omitempty"`
+	Unknown     []string `json:"unknown_callees,omitempty"`
+	Trusted     bool     `json:"trusted,omitempty"`
 }
 
 func runCheck(prop, tier, repo, overlayFile, only string, writeEvidence, keep, verbose bool) int {
@@ -221,6 +221,7 @@ func runCheck(prop, tier, repo, overlayFile, only string, writeEvidence, keep, v
 	if !keep {
 		defer os.RemoveAll(workdir)
 	}
+	saveLocals()
 	return eng.report(prop, tier, pc, obls, reports, writeEvidence, verbose, start, loadT)
 }
 
